@@ -284,6 +284,12 @@ add("sync_base_cache.rs", "sync_twin_must_fail", {"C01", "C05", "C06", "C07", "C
 add("housekeeper.rs", "try_sync_releases_the_flag_on_every_path", {"C09", "C08"}, "quick", 10, "Housekeeper::try_sync flag discipline for an arbitrary InnerSync", "all clock readings; flag free/busy")
 add("housekeeper.rs", "full_queue_always_triggers_maintenance", {"C09", "C08"}, "quick", 10, "should_apply_* true whenever the queue is at its flush point (both housekeeping regimes); queue sizes >= flush points", "all queue lengths and clock readings")
 add("sync_cache.rs", "schedule_write_op_on_a_full_queue_runs_maintenance_and_returns", {"C09", "C08"}, "quick", 60, "schedule_write_op with a FULL queue: runs maintenance once, enqueues, never sleeps", "model queue capacity 2; draining InnerSync")
+add("sync_cache.rs", "schedule_write_op_retries_maintenance_until_the_queue_has_room", {"C09", "C08"}, "quick", 30, "schedule_write_op on a FULL queue while another thread holds the maintenance flag, which is released during the retry sleep: the writer retries maintenance and completes in two rounds", "model queue capacity 2; sleep stubbed by 'other thread finishes'", unwind_tag="C09")
+for _nm in ("invalidate_removes_an_idle_expired_entry", "invalidate_removes_an_entry_below_the_watermark"):
+    add("sync_cache.rs", _nm, {"C07", "C10", "C11"}, "quick", 30, "Cache::invalidate of an entry that lookups already hide (tti deadline / watermark) but that is still in the map: removed and its Remove queued", "n=2, concrete time class", quick={"C07"})
+add("sync_cache.rs", "sync_iter_skips_entry_that_expires_after_iter_was_created", {"C16", "C05", "C06", "C15"}, "quick", 30, "real sync Iter (src/sync/iter.rs) over the map model; the clock passes key 0's ttl deadline between iter() and next()", "n=2, concrete time classes 8 -> 2", quick={"C16", "C05"})
+add("sync_cache.rs", "sync_iter_yields_each_live_entry_once", {"C16", "C05", "C06", "C07", "C15", "C01"}, "quick", 30, "real sync Iter over the map model, ttl+tti+watermark, everything live", "n=2, time class 1", quick={"C16", "C01"})
+add("sync_base_cache.rs", "l_sync_idle_over_capacity_evicts", {"C04", "C12", "C10", "C09", "C08"}, "quick", 90, "whole Inner::sync with EMPTY queues on a cache above max_capacity: evicts the LRU excess", "n=2 (3+5 > 5), no expiry", quick={"C04"})
 add("sync_cache.rs", "schedule_write_op_with_room_enqueues_once", {"C09", "C08"}, "quick", 60, "schedule_write_op with room: flag free or busy", "model queue capacity 2")
 
 for _n in (1, 2):
